@@ -835,9 +835,15 @@ func TestVerifC32(t *testing.T) {
 
 					break
 				}
-				if err != nil || k >= len(frames) || !bytes.Equal(payload, frames[k].Data) || fh.Timestamp != frames[k].PTS*uint64(c.Den)/uint64(c.Num) {
+				if err != nil || k >= len(frames) || !bytes.Equal(payload, frames[k].Data) {
 					run.Violation("reader-frame-bytes:lossy", fmt.Sprintf("lossy stream: reader frame %d differs from the file content (err=%v)", k, err), i,
 						detail("seekable-lossy", map[string]any{"loss_seed": lossSeed}))
+
+					break
+				}
+				if want := frames[k].PTS * uint64(c.Den) / uint64(c.Num); fh.Timestamp != want {
+					run.Violation("reader-timestamp", fmt.Sprintf("lossy stream: reader frame %d Timestamp %d, expected floor(pts*den/num)=%d with file pts=%d num/den=%d/%d",
+						k, fh.Timestamp, want, frames[k].PTS, c.Num, c.Den), i, detail("seekable-lossy", map[string]any{"loss_seed": lossSeed}))
 
 					break
 				}
